@@ -9,3 +9,6 @@ import Barril.Proofs.ConvLemmas
 import Barril.Proofs.FailLemmas
 import Barril.Props.C01
 import Barril.Props.C05
+import Barril.Model.Mgr
+import Barril.Proofs.MgrLemmas
+import Barril.Props.C17
